@@ -3,10 +3,15 @@ From Verif Require Import Base.BStr Persist.Batch Persist.LevelDb Persist.MapSpe
 Import ListNotations.
 Open Scope Z_scope.
 
+Ltac sp := repeat match goal with |- _ /\ _ => split end.
+
+Lemma mk_db_ok s : d_open s = true -> batch_ok (d_batch s) -> NoDup (map fst (d_disk s)) -> db_ok s.
+Proof. intros. unfold db_ok. auto. Qed.
+
 Definition db_dom (s : db) : list key := map fst (d_disk s) ++ map rec_key (b_log (d_batch s)).
 
 Lemma new_db_ok max d : NoDup (map fst d) -> db_ok (new_db max d).
-Proof. intros H. repeat split; try exact H; try apply new_batch_ok. Qed.
+Proof. intros H. apply mk_db_ok; simpl; auto. apply new_batch_ok. Qed.
 
 Lemma new_db_abs max d a : db_abs (new_db max d) a = disk_map d a.
 Proof. reflexivity. Qed.
@@ -26,10 +31,9 @@ Proof.
   intros (Ho & Hb & Hd). unfold db_update_batch_with_increment, db_put_batch, set_size.
   cbn [d_size d_max d_open d_batch d_disk]. rewrite Ho.
   destruct (d_size s + 1 <? d_max s) eqn:E.
-  - repeat split; auto. intros a Ha; exact Ha.
-  - repeat split; cbn [d_open d_batch d_disk d_max]; auto.
-    + apply new_batch_ok.
-    + apply NoDup_apply_log. exact Hd.
+  - sp; auto. + apply mk_db_ok; auto. + intros a Ha; exact Ha.
+  - sp; cbn [d_open d_batch d_disk d_max]; auto.
+    + apply mk_db_ok; cbn [d_open d_batch d_disk d_max]; auto; [apply new_batch_ok|apply NoDup_apply_log; exact Hd].
     + intros a. unfold db_abs. cbn [d_batch d_disk]. apply batch_abs_flush. exact Hb.
     + intros a Ha. unfold db_dom in Ha. cbn [d_batch d_disk batch_reset] in Ha. apply db_flush_dom. exact Ha.
 Qed.
@@ -41,9 +45,9 @@ Lemma db_put_spec s k v :
 Proof.
   intros (Ho & Hb & Hd). unfold db_put.
   set (s1 := set_batch s (batch_put (d_batch s) k v)).
-  assert (H1 : db_ok s1) by (repeat split; auto; apply batch_put_ok; exact Hb).
+  assert (H1 : db_ok s1) by (apply mk_db_ok; auto; apply batch_put_ok; exact Hb).
   pose proof (db_update_spec s1 H1) as H. destruct (db_update_batch_with_increment s1) as [s' r].
-  destruct H as (Hok & Hr & Ha & Hi & Hm). repeat split; auto.
+  destruct H as (Hok & Hr & Ha & Hi & Hm). sp; auto.
   - intros a. rewrite Ha. unfold db_abs, s1. cbn [set_batch d_batch d_disk]. apply batch_abs_put.
   - intros a Hin. apply Hi in Hin. unfold db_dom, s1 in Hin. cbn [set_batch d_batch d_disk batch_put b_log map rec_key] in Hin.
     apply in_app_or in Hin. simpl. unfold db_dom. rewrite in_app_iff. simpl in Hin. tauto.
@@ -56,9 +60,9 @@ Lemma db_remove_spec s k :
 Proof.
   intros (Ho & Hb & Hd). unfold db_remove.
   set (s1 := set_batch s (batch_delete (d_batch s) k)).
-  assert (H1 : db_ok s1) by (repeat split; auto; apply batch_delete_ok; exact Hb).
+  assert (H1 : db_ok s1) by (apply mk_db_ok; auto; apply batch_delete_ok; exact Hb).
   pose proof (db_update_spec s1 H1) as H. destruct (db_update_batch_with_increment s1) as [s' r].
-  destruct H as (Hok & Hr & Ha & Hi & Hm). repeat split; auto.
+  destruct H as (Hok & Hr & Ha & Hi & Hm). sp; auto.
   - intros a. rewrite Ha. unfold db_abs, s1. cbn [set_batch d_batch d_disk]. apply batch_abs_delete.
   - intros a Hin. apply Hi in Hin. unfold db_dom, s1 in Hin. cbn [set_batch d_batch d_disk batch_delete b_log map rec_key] in Hin.
     apply in_app_or in Hin. simpl. unfold db_dom. rewrite in_app_iff. simpl in Hin. tauto.
@@ -81,9 +85,8 @@ Lemma db_tick_spec s :
   /\ incl (db_dom (db_tick s)) (db_dom s) /\ d_max (db_tick s) = d_max s.
 Proof.
   intros (Ho & Hb & Hd). unfold db_tick, db_put_batch. rewrite Ho.
-  repeat split; cbn [d_open d_batch d_disk d_max]; auto.
-  - apply new_batch_ok.
-  - apply NoDup_apply_log. exact Hd.
+  sp; cbn [d_open d_batch d_disk d_max]; auto.
+  - apply mk_db_ok; cbn [d_open d_batch d_disk d_max]; auto; [apply new_batch_ok|apply NoDup_apply_log; exact Hd].
   - intros a. unfold db_abs. cbn [d_batch d_disk]. apply batch_abs_flush. exact Hb.
   - intros a. apply (batch_abs_flush (d_batch s) (d_disk s) a Hb).
   - intros a Ha. apply db_flush_dom. exact Ha.
@@ -101,9 +104,8 @@ Lemma db_cycle_spec s :
   /\ incl (db_dom s') (db_dom s) /\ d_max s' = d_max s.
 Proof.
   intros (Ho & Hb & Hd). unfold db_close, db_reopen, db_put_batch. rewrite Ho. cbn [fst snd d_disk d_max].
-  repeat split; cbn [new_db d_open d_batch d_disk d_max]; auto.
-  - apply new_batch_ok.
-  - apply NoDup_apply_log. exact Hd.
+  sp; cbn [new_db d_open d_batch d_disk d_max]; auto.
+  - apply mk_db_ok; cbn [d_open d_batch d_disk d_max]; auto; [apply new_batch_ok|apply NoDup_apply_log; exact Hd].
   - intros a. unfold db_abs. cbn [d_batch d_disk]. apply batch_abs_flush. exact Hb.
   - intros a. apply (batch_abs_flush (d_batch s) (d_disk s) a Hb).
   - intros a Ha. apply db_flush_dom. exact Ha.
@@ -116,3 +118,25 @@ Proof. intros H. unfold db_get, db_has, db_range. rewrite H. repeat split. Qed.
 
 Lemma db_close_closed s : d_open (fst (db_close s)) = false.
 Proof. reflexivity. Qed.
+
+(** operations on a closed DB never reach LevelDB: whatever happens between Close and the next
+    NewDB on the path, the reopened persister is the same *)
+Lemma db_closed_ops_reopen s k v :
+  d_open s = false ->
+  (d_open (fst (db_put s k v)) = false /\ db_reopen (fst (db_put s k v)) = db_reopen s)
+  /\ (d_open (fst (db_remove s k)) = false /\ db_reopen (fst (db_remove s k)) = db_reopen s)
+  /\ (d_open (db_tick s) = false /\ db_reopen (db_tick s) = db_reopen s)
+  /\ (d_open (fst (db_close s)) = false /\ db_reopen (fst (db_close s)) = db_reopen s).
+Proof.
+  intros H. unfold db_put, db_remove, db_tick, db_close, db_update_batch_with_increment, db_put_batch, db_reopen, set_size, set_batch.
+  cbn [d_size d_max d_open d_batch d_disk]. rewrite H.
+  destruct (d_size s + 1 <? d_max s); cbn [fst d_open d_max d_disk]; rewrite ?H; repeat split.
+Qed.
+
+(** observation (outside the text of C09, which speaks of writes acknowledged BEFORE Close): a Put on a
+    closed DB is acknowledged with nil as long as it does not fill the batch, and is dropped *)
+Lemma db_put_on_closed_acknowledged :
+  exists s k v, d_open s = false /\ snd (db_put s k v) = ROk /\ db_reopen (fst (db_put s k v)) = db_reopen s.
+Proof.
+  exists (fst (db_close (new_db 3 []))), [1%N], (Some [2%N]). repeat split.
+Qed.
